@@ -39,6 +39,11 @@ MAX_CONFIGS = 4000
 MAX_DEPTH = 8
 
 
+def _ck(x):
+    """cache key of a FILLED / DIRTY fact"""
+    return x[1][0] if x[0] == 'DIRTY' else x[1]
+
+
 class Ctx:
     """analysis context of one function activation"""
     __slots__ = ('func', 'cls', 'recv', 'bind', 'depth', 'aliases', 'stack', 'nested_active')
@@ -564,6 +569,8 @@ class Protocol:
             return self.store(ctx, st.target, st.value, configs, st, aug=True)
         if isinstance(st, ast.Delete):
             for t in st.targets:
+                if isinstance(t, ast.Subscript) and src(t.value) == 'self.__dict__' and isinstance(t.slice, ast.Constant) and ctx.recv == 'SELF':
+                    configs = self.drop_cached(configs, {t.slice.value})
                 configs = self.store(ctx, t, None, configs, st, delete=True)
             return configs
         if isinstance(st, ast.If):
@@ -766,11 +773,42 @@ class Protocol:
                         self.stale_reads.append((ctx.stack[0], ctx.func.fq, n.attr, getattr(n, 'lineno', 0), tuple(sorted({o[1] for o in hit})), hit[0][3]))
                         break
 
+    def mark_filled(self, ctx, node, configs):
+        """reading a cached property of the receiver leaves its value in the cache: fact ('FILLED', key). A later raw write the value depends on
+        turns it into ('DIRTY', key, origin) (see write()); dropping the key or a flush that does not keep it clears both. DIRTY at a normal exit =
+        the method leaves behind a cache entry computed for a state that no longer exists"""
+        if ctx.recv != 'SELF':
+            return configs
+        cr = self.cached_read_sets()
+        keys = set()
+        for n in ast.walk(node):
+            if isinstance(n, ast.Attribute) and isinstance(n.value, ast.Name) and n.value.id == 'self' and isinstance(n.ctx, ast.Load) and n.attr in cr:
+                keys.add(cr[n.attr][0])
+        if not keys:
+            return configs
+        out = set()
+        for pend, facts in configs:
+            f = set(facts)
+            for k in keys:
+                if not any(x[0] == 'DIRTY' and x[1][0] == k for x in f):
+                    f.add(('FILLED', k))
+            out.add((pend, frozenset(f)))
+        return frozenset(out)
+
+    def drop_cached(self, configs, keys=None, keep=()):
+        """forget FILLED / DIRTY facts for the given keys (None = every key not in `keep`)"""
+        out = set()
+        for pend, facts in configs:
+            out.add((pend, frozenset(x for x in facts if not (x[0] in ('FILLED', 'DIRTY') and (
+                _ck(x) in keys if keys is not None else _ck(x) not in keep)))))
+        return frozenset(out)
+
     def eval_expr(self, ctx, node, configs, exits, stmt=None):
         if node is None:
             return configs
         if configs and getattr(self, 'track_stale_reads', False):
             self.check_stale_reads(ctx, node, configs)
+            configs = self.mark_filled(ctx, node, configs)
         calls = []
         self._collect_calls(node, calls)
         for c in calls:
@@ -833,6 +871,7 @@ class Protocol:
         f = call.func
         if isinstance(f, ast.Attribute) and f.attr == 'pop' and src(f.value) == 'self.__dict__' and call.args and isinstance(call.args[0], ast.Constant):
             k = call.args[0].value
+            configs = self.drop_cached(configs, {k})
             return frozenset((p, frozenset(set(fa) | {('POPPED', k)})) for p, fa in configs)
         if isinstance(f, ast.Name):
             r = self.nested_call(ctx, call, configs)
@@ -1025,6 +1064,9 @@ class Protocol:
                 else:
                     new.add(o)
             new = frozenset(new)
+            if owner == 'SELF' and mol:
+                kept_keys = {k for fl in self.active_keep_flags for k in self.kept.get(fl, ())}
+                facts = frozenset(x for x in facts if not (x[0] in ('FILLED', 'DIRTY') and _ck(x) not in kept_keys))
             out.add((new, facts))
         return frozenset(out)
 
@@ -1062,6 +1104,9 @@ class Protocol:
             if cat == 'HCOUNT':
                 # an explicit hydrogen count is itself the hydrogen recomputation
                 p = {o for o in p if not (o[0] == 'HYDRO' and o[2] == owner)}
+            if owner == 'SELF' and getattr(self, 'track_stale_reads', False) and any(x[0] == 'FILLED' for x in facts):
+                by_key = {v[0]: v[1] for v in self.cached_read_sets().values()}
+                facts = frozenset(('DIRTY', (x[1], origin)) if x[0] == 'FILLED' and set(cats) & by_key.get(x[1], set()) else x for x in facts)
             out.add((frozenset(p), facts))
         return frozenset(out)
 
